@@ -22,11 +22,15 @@ class FirstAsg:
 
     def __init__(self):
         self.first = {}
+        self.first_obj = {}      # id(Pipeline object) -> tick: a job name that comes back is another pipeline
 
     def update(self, rd):
         for a in rd["asg"]:
             if a.pipeline_id not in self.first:
                 self.first[a.pipeline_id] = rd["tick"]
+            k = id(a.ops[0].pipeline)
+            if k not in self.first_obj:
+                self.first_obj[k] = rd["tick"]
 
 
 # ---------------------------------------------------------------------------
@@ -70,12 +74,13 @@ class PriorityOracle:
                     "pipeline": p.pipeline_id, "states": [x.state().value for x in p.values],
                     "free_after_round": [[float(x[0]), float(x[1])] for x in post]}, t)
         # FIFO within a class
+        rank = {id(q): k for k, q in enumerate(R.pipes)}
         for a in asg:
             pid = a.pipeline_id
-            if self.fa.first.get(pid) == t and pid in R.arrival:
-                for q in R.pipes:
-                    if q.priority == prio_of[pid] and R.arrival[q.pipeline_id] < R.arrival[pid] \
-                            and q.pipeline_id not in self.fa.first:
+            me = a.ops[0].pipeline
+            if self.fa.first_obj.get(id(me)) == t and id(me) in rank:
+                for k, q in R.open:
+                    if q.priority == me.priority and k < rank[id(me)] and id(q) not in self.fa.first_obj:
                         raise Violation("C12.fifo", {"pipeline": pid, "overtaken": q.pipeline_id}, t)
         # pre-emption
         if algo == "priority-pool":
@@ -211,9 +216,11 @@ class NaiveOracle:
                 if len(a.ops) != 1 or id(a.ops[0]) not in rd["pre_ready"].get(a.pipeline_id, ()):
                     raise Violation("C17.single_ready_operator", {"pipeline": a.pipeline_id, "ops": len(a.ops)}, t)
             pid = a.pipeline_id
-            if self.fa.first.get(pid) == t and pid in R.arrival:
-                for q in R.pipes:
-                    if R.arrival[q.pipeline_id] < R.arrival[pid] and q.pipeline_id not in self.fa.first:
+            me = a.ops[0].pipeline
+            rank = {id(q): k for k, q in enumerate(R.pipes)}
+            if self.fa.first_obj.get(id(me)) == t and id(me) in rank:
+                for k, q in R.open:
+                    if k < rank[id(me)] and id(q) not in self.fa.first_obj:
                         raise Violation("C17.fifo", {"pipeline": pid, "overtaken": q.pipeline_id}, t)
 
 
